@@ -312,8 +312,8 @@ class Gen:
             name = self.fresh()
             e = self.expr(ty, scopes, depth)
             if len(scopes) > 2 and r.random() < 0.25:
-                # shadow a local of an enclosing scope (never a loop counter, never a global: V23)
-                outer = [n for sc in scopes[1:-1] for n, (t, w) in sc.items() if w and not n.startswith("c_") and n not in self.globals]
+                # shadow a local of an enclosing scope or a global (never a loop counter)
+                outer = [n for sc in scopes[:-1] for n, (t, w) in sc.items() if w and not n.startswith("c_")]
                 if outer:
                     name = r.choice(outer)
                     self.features.add("shadow")
